@@ -152,6 +152,17 @@ def r1(ctx):
             if answer == 'last':
                 ok = len(rest) == 1 and (match(rest[0], Call('slice::last', isd)) or match(rest[0], Call('unwrap_or', Call('slice::last', isd), Const(0))) or
                                          match(rest[0], ('index', isd, ('bin', 'Sub', Call('len', isd), Const(1)))))
+                if not ok and len(rest) == 1 and rest[0][0] == 'index' and match(rest[0][1], isd):
+                    # d[(|a| + 1) * (|b| + 1) - 1]: the last cell of the matrix the DP allocates
+                    ix = init_value(b, rest[0][2])
+                    la_ = [y for y in walk(ix) if isinstance(y, tuple) and y and match(y, Call('CharString::len', Call('CharString::new', ('arg', 1, ANY), ANY)))]
+                    lb_ = [y for y in walk(ix) if isinstance(y, tuple) and y and match(y, Call('CharString::len', Call('CharString::new', ('arg', 2, ANY), ANY)))]
+                    if la_ and lb_:
+                        want_ = poly._add(poly._mul(poly._add(poly.poly(la_[0]), {(): 1}, 1), poly._add(poly.poly(lb_[0]), {(): 1}, 1)), {(): 1}, -1)
+                        try:
+                            ok = poly.poly(ix) == want_
+                        except Exception:
+                            ok = False
             else:
                 ok = len(rest) == 1 and has(rest[0], Call('Iterator::min', ANY)) and has(rest[0], isd)
                 if not ok:
@@ -176,12 +187,24 @@ def r1(ctx):
                             '%s: un-normalised divisor is 1.0' % fn, '%s: constant divisor is %s' % (fn, c[1]), span)
                 continue
             clamped = match(c, Call('Ord::max', ANY, Const(1))) or match(c, Call('Ord::max', Const(1), ANY))
+            guarded = False
+            if not clamped:
+                # the same protection as a guard: the length is used as divisor only under `len > 0` (otherwise 1.0)
+                for tt_, pol_ in alt.atoms:
+                    ct_ = core(tt_)
+                    if ct_[0] == 'bin' and ((ct_[1] in ('Gt', 'Ne') and pol_ and match(core(ct_[3]), Const(0))) or (ct_[1] == 'Ge' and pol_ and match(core(ct_[3]), Const(1))) or
+                                            (ct_[1] == 'Eq' and not pol_ and match(core(ct_[3]), Const(0)))) and nosite(core(ct_[2])) == nosite(c):
+                        guarded = True
+            if guarded:
+                clamped = True
             ctx.require(clamped, b, 'divisor-clamped|' + fn.rsplit('::', 1)[-1],
                         '%s: normalising length is clamped with .max(1)' % fn,
                         '%s divides by %s which is 0 for empty input: the result is NaN' % (fn, show_in(b, dv)), span)
-            inner = c[2][0] if clamped and not (c[2][0][0] == 'const') else (c[2][1] if clamped else c)
+            inner = c if guarded else (c[2][0] if clamped and not (c[2][0][0] == 'const') else (c[2][1] if clamped else c))
             if fn.endswith('::distance'):
-                okl = match(inner, Call('Ord::max', Call('CharString::len', ANY), Call('CharString::len', ANY)))
+                LEN1 = ('bin', 'Add', Call('CharString::len', ANY), Const(1))
+                okl = match(inner, Call('Ord::max', Call('CharString::len', ANY), Call('CharString::len', ANY))) or \
+                    match(core(init_value(b, inner)), ('bin', 'Sub', Call('max', Pred(lambda u: match(core(init_value(b, u)), LEN1)), Pred(lambda u: match(core(init_value(b, u)), LEN1))), Const(1)))
                 ctx.require(okl, b, 'divisor-length|distance', 'distance normalises by max(|a|, |b|) in characters',
                             'distance normalises by %s' % show_in(b, inner), span)
             else:
@@ -211,6 +234,13 @@ def r1(ctx):
             if xa and xb:
                 pa, pcols = poly.poly(xa[0]), poly._add(poly.poly(xb[0]), {(): 1}, 1)
                 ok = poly.poly(lo) == poly._mul(pa, pcols) and (hi is None or poly.poly(hi) == poly._mul(poly._add(pa, {(): 1}, 1), pcols))
+    if not ok:
+        # the last row as the last `cols` cells of the matrix: d.iter().rev().take(cols)
+        for t in b.calls(r'Iterator::take$'):
+            src_ = core(sym(b, t.args[0]))
+            k_ = core(init_value(b, sym(b, t.args[1])))
+            if match(src_, Call('Iterator::rev', ANY)) and match(k_, ('bin', 'Add', Call('CharString::len', Call('CharString::new', ('arg', 2, ANY), ANY)), Const(1))):
+                ok = True
     ctx.require(ok, b, 'prefix-row', 'prefix_distance takes the minimum over the last row d[|a|*cols .. (|a|+1)*cols]', None)
 
 
@@ -534,3 +564,22 @@ def r_wspred(ctx):
 def r7(ctx):
     from rules.common import py_encoding_agrees
     py_encoding_agrees(ctx, 'edit::EditOperation', {'Insert', 'Delete', 'Replace', 'Swap'})
+
+
+@rule('C12', 'R-C12-8', 'T15 TYPE (costs and positions keep their width)',
+      'no length, position or cost of the edit-distance functions is narrowed (`as u16`, `as u32`, ...): the first row / column hold 0..n, so a cell '
+      'type narrower than usize truncates silently for long inputs while operations(), which only reads the op matrix, still returns the full script')
+def r8(ctx):
+    from rules.common import narrowing_casts, closures_in
+    n = 0
+    for fn in ('edit::_calculate_edit_matrices', 'edit::distance', 'edit::prefix_distance', 'edit::operations'):
+        x0 = ctx.body(fn)
+        for x in [x0] + closures_in(ctx, x0):
+            ctx.stats['bodies_inspected'].add(x.path)
+            for s_, f_, t_ in narrowing_casts(x):
+                if s_.span['exp']:
+                    continue
+                n += 1
+                ctx.fail(x, 'narrowing|%s->%s' % (f_, t_), '%s narrows a %s to %s at line %d: distances and positions above %s wrap around, distance() no longer equals the length of '
+                         'the script operations() returns' % (fn, f_, t_, s_.span['line'], t_), s_.span)
+    ctx.ok(None, 'no narrowing integer cast in the edit-distance functions (%d found)' % n)
